@@ -7,7 +7,7 @@
    fairness, are observed by the correspondence scenarios, not proved. *)
 From Coq Require Import List Arith Bool.
 Import ListNotations.
-From SV Require Import Base.SrcAst Model.TokenSet Model.Accept Proofs.AcceptP Proofs.AcceptP2 Tie.TokenSetTie Generated.SourceParams.
+From SV Require Import Base.SrcAst Model.TokenSet Model.Accept Proofs.AcceptP Proofs.AcceptP2 Tie.TokenSetTie Tie.AcceptTie Generated.SourceParams.
 
 (* ---- the slot pool driven through its API (src/token_set.rs) ---- *)
 
@@ -136,6 +136,17 @@ Proof. exact token_take_tie. Qed.
 Theorem c12_translation_complete : src_problems_token_set = 0%nat.
 Proof. exact token_set_translated. Qed.
 
+(* C12.src  accept_loop (src/accept.rs) as TRANSLATED statement by statement ON THIS RUN (props/srcparams.py ->
+   Generated/SourceParams.v: src_accept_loop -- the token-or-permit wait, `let Some(token) = .. else { return }`, the
+   revocation check, the accept-or-permit match with the statements of its four arms), under a small-step semantics
+   whose pause points are the await points and the window before the revocation check (Tie/AcceptTie.v), makes exactly
+   the accept-task transitions of the system the theorems above are about -- for every pool size and state *)
+Theorem c12_accept_loop_is_the_source :
+  forall n s ev, eval_accept n src_accept_loop s ev = step true n s (action_of ev).
+Proof. exact accept_loop_tie. Qed.
+Theorem c12_accept_translation_complete : src_problems_accept = 0%nat.
+Proof. exact accept_translated. Qed.
+
 Print Assumptions c12_pool_conservation.
 Print Assumptions c12_pool_drop_never_lost.
 Print Assumptions c12_pool_take_iff_room.
@@ -153,3 +164,5 @@ Print Assumptions c12_token_set_new_is_the_source.
 Print Assumptions c12_token_drop_is_the_source.
 Print Assumptions c12_token_take_is_the_source.
 Print Assumptions c12_translation_complete.
+Print Assumptions c12_accept_loop_is_the_source.
+Print Assumptions c12_accept_translation_complete.
